@@ -12,12 +12,14 @@ LEVEL_TEXT = ('Proof: Coq theorems (coq/Properties/C10.v) over the Gallina model
               'and nothing else (refinement); by induction over ANY list of set_pixel / draw_iter operations pixel(q) is the colour most recently '
               'written to q; a write outside WIDTH x HEIGHT returns the identical byte array; bytes at or beyond BUFFER_SIZE are never '
               'modified (single step and histories); as_image() never panics and is the ImageRaw of the same raw type, data order and size '
-              'over the used prefix; pixel() never panics. The layout itself (closed forms over the bytes) is C11\'s theorems about load.')
+              'over the used prefix; pixel() never panics; drawing as_image() (ImageDrawable::draw with ContiguousPixels modelled as written: '
+              'next / nth(row_skip) on the raw iterator) hands fill_contiguous exactly WIDTH*HEIGHT colours, colour y*WIDTH+x being pixel (x,y). The layout itself (closed forms over the bytes) is C11\'s theorems about load.')
 LEVEL_NOTE = ('Trusted: Coq kernel, extraction, the OCaml/Rust drivers; the hand-written model is validated by differential testing on every '
               'run. fill_solid / fill_contiguous / clear / drawables reach the framebuffer only through the DrawTarget trait defaults and '
               'draw_iter (C03 / C01 own those); they are exercised here by the search suite against a reference map, and in the '
               'correspondence by expanding fill_solid/clear into their point lists in the model driver. "Drawing as_image() reproduces the '
-              'content" is proved up to "as_image() is that ImageRaw" (the drawing of an ImageRaw is C09) and checked end-to-end by p_fb_hist.')
+              'content" is proved up to the colour stream and area handed to fill_contiguous (what a target does with it is C03; Image offset C09) '
+              'and checked end-to-end on two targets by p_fb_hist.')
 RULE = ('correspondence (fb_hist): all bytes of data() and pixel() over the window -1..=W x -1..=H after a history of set_pixel / draw_iter / '
         'fill_solid / clear operations (points inside, on and beyond every edge, i32 extremes) on a zero or patterned (data_mut) background, for '
         '7 raw widths x 2 data orders x 13 (W,H,extra) configurations (rows ending and not ending on a byte boundary, oversized buffers, zero '
